@@ -344,12 +344,14 @@ func C09(c *core.Ctx) {
 				s.MemTable = 8 << 10
 				s.ManifestRewrite = 2
 				s.Compactors = 2
+				s.BaseTableSize = 1 << 10 // one compaction of the level-0 tables writes a dozen tables or more
+				s.L0Tables = 2
 			}
 			writeSpec(s, sp)
 			out, timedOut, _ := runChild(120*time.Second, nil, c.ID, "--child-crash", sp)
 			si := parseSideLog(s.SideLog)
 			if timedOut || (mode == "end" && !si.ended) || (mode != "end" && si.killed == "") {
-				c.Inconclusive(fmt.Sprintf("image run %s/%s did not reach its end: %s", cfg.name, mode, tailStr(out, 300)))
+				c.Inconclusive(fmt.Sprintf("image run %s/%s did not reach its end: fatal=%q timedOut=%v ended=%v %s", cfg.name, mode, si.fatal, timedOut, si.ended, tailStr(out, 300)))
 				continue
 			}
 			image := s.Dir
@@ -444,6 +446,10 @@ func C09(c *core.Ctx) {
 						c.Inconclusive("MANIFEST does not end at a record boundary in the undamaged image")
 					}
 					for o := last.Off; o < last.End; o++ {
+						// long records: every offset of the header and the first payload bytes, then every 5th
+						if last.End-last.Off > 96 && o > last.Off+24 && o < last.End-8 && (o-last.Off)%5 != 0 {
+							continue
+						}
 						region := "payload"
 						if o < last.Off+4 {
 							region = "length"
